@@ -159,15 +159,18 @@ def run_case(pname, project, removed, purge, driver, stats, add):
             {'want': want_ids, 'got': after_ids})
 
 
-def run_emptied_case(purge, driver, stats, add):
+def run_emptied_case(purge, driver, stats, add, second=True):
     """A stale app whose models were all deleted by its own evolution
-    earlier: its (empty) signature entry must still be purgeable."""
+    earlier: its (empty) signature entry must still be purgeable - alone
+    (nothing else in the run needs saving) and next to a second stale app
+    that still owns a table (the emptied one comes first in the
+    signature)."""
     stats['cases'] += 1
-    # ... next to a second stale app that still owns a table (the emptied
-    # one comes first in the signature)
     v0 = P(A('va', [M('Item', [F('name', 'Char', max_length=20)])]),
-           A('vx', [M('Gone', [F('n', 'Int', null=True)])]),
-           A('vy', [M('Still', [F('s', 'Char', max_length=20)])]))
+           A('vx', [M('Gone', [F('n', 'Int', null=True)])]))
+    if second:
+        v0['apps'].append(A('vy', [M('Still', [F('s', 'Char',
+                                                 max_length=20)])]))
     hist = EB.History(v0, [('vx', 'e1', [['DeleteModel', 'Gone']])])
     hist.install(0)
     B.fresh_db('default')
@@ -185,8 +188,10 @@ def run_emptied_case(purge, driver, stats, add):
     MZ.install(P(S.clone(v0['apps'][0])),
                evolutions={'va': {'SEQUENCE': [], 'modules': {}}})
     B.reset_globals()
-    replay = {'scenario': 'emptied-app', 'purge': purge, 'driver': driver}
-    shape = '%s|%s' % ('purge' if purge else 'no-purge', driver)
+    replay = {'scenario': 'emptied-app', 'purge': purge, 'driver': driver,
+              'second': second}
+    shape = '%s|%s%s' % ('purge' if purge else 'no-purge', driver,
+                         '' if second else '|alone')
     if driver == 'D3':
         res = D.d3(purge=purge)
     else:
@@ -208,7 +213,8 @@ def run_emptied_case(purge, driver, stats, add):
         add('C15|emptied-app|run-fails|%s|%s' % (res.exc_type, shape),
             replay, {'error': str(res.exc)[:300]})
         return
-    want_tables = before_tables - ({'vy_still'} if purge else set())
+    want_tables = before_tables - ({'vy_still'} if purge and second
+                                   else set())
     if set(O.list_tables('default')) != want_tables:
         add('C15|emptied-app|tables-wrong|%s' % shape, replay,
             {'got': sorted(set(O.list_tables('default')) ^ want_tables)})
@@ -454,7 +460,8 @@ def work(task):
     if kind == 'emptied':
         for purge in (True, False):
             for driver in ('D3', 'D2'):
-                run_emptied_case(purge, driver, stats, add)
+                for second in (True, False):
+                    run_emptied_case(purge, driver, stats, add, second)
         stats['samples'].append({'scenario': 'emptied-app'})
     elif kind == 'legacy-keyed-app':
         for driver in ('D3', 'D2'):
@@ -545,7 +552,8 @@ def replay(path):
         found[fp] = detail
     stats = {'cases': 0, 'runs': 0}
     if r.get('scenario') == 'emptied-app':
-        run_emptied_case(r['purge'], r['driver'], stats, add)
+        run_emptied_case(r['purge'], r['driver'], stats, add,
+                         r.get('second', True))
     elif r.get('scenario') == 'legacy-keyed-app':
         run_legacy_keyed_case(r['driver'], stats, add)
     elif r.get('scenario') == 'retire-app':
